@@ -296,3 +296,26 @@ impl<S: FileSystem> Module<S> {
         Ok((str_interner, file_manager, symtab))
     }
 }
+
+#[cfg(az65_verif)]
+impl<S> Module<S> {
+    /// Verification hook: (kind, offset, len) of every pending link, in registration order.
+    /// kind: 0 byte, 1 signed byte, 2 word, 3 space, 4 assert (offset and len are 0).
+    pub fn verif_links(&self) -> Vec<(u8, usize, usize)> {
+        self.links
+            .iter()
+            .map(|link| match link {
+                Link::Byte { offset, .. } => (0, *offset, 1),
+                Link::SignedByte { offset, .. } => (1, *offset, 1),
+                Link::Word { offset, .. } => (2, *offset, 2),
+                Link::Space { offset, len, .. } => (3, *offset, *len),
+                Link::Assert { .. } => (4, 0, 0),
+            })
+            .collect()
+    }
+
+    /// Verification hook: the image as it stands before `link` patches it.
+    pub fn verif_image(&self) -> &[u8] {
+        &self.data
+    }
+}
